@@ -328,7 +328,8 @@ PROPS["C05"] = dict(
                        feature=lambda tok: " ".join(tok[3:40]) if tok[0] == "F" else None),
             corr_stage("C05S", 6, 12, feature=feat_buf("C05"), instrument=True, shards=4, tparams={"points": 1000}),
             corr_stage("BUFK1", 2000, 5000, feature=feat_buf("C05"), params={"salt": 5}),
-            corr_stage("C05CAUSE", 60, 600, validate=False)],
+            corr_stage("C05CAUSE", 60, 600, validate=False),
+            corr_stage("C05RELEN", 30, 300, validate=False)],
 )
 PROPS["C12"] = dict(
     rule="C12LEAK: Buffer with 1-3 consumers, reads/commits/rollbacks, parked Gets, shut down in 4 orders (consumers first, buffer first, context "
